@@ -6,6 +6,7 @@ func init() {
 			Bounds: []string{
 				"free shape: 1..3 IDs (quick: 1..2), each at the target zoom, one level finer or one level coarser per axis (case-split), indices symbolic over the valid range of both signs; target zooms (H,V) in {0,1,24,25,34}^2 restricted so zooms stay in 0..35",
 				"children shape: complete child set of a symbolic target voxel for (dh,dv) in {(1,1),(1,0),(0,1)} with one child dropped / duplicated / one arbitrary extra ID",
+				"mixed-depth shape: a target voxel filled by one child (lower half) and two grandchildren (upper half) in all six list orders, and with a member missing",
 				"idempotence (second merge executed symbolically on the first merge's symbolic result) for 1..2 IDs",
 			},
 			Outside: []string{"more than 3 free IDs or zoom spread above 1 (the unit-cell sets grow as 4^dh*2^dv per ID)"},
@@ -52,6 +53,14 @@ func init() {
 					}
 					if H == V {
 						add("VerifC04Spatial", cs("Z", H))
+					}
+					if V < 34 {
+						// members of different depths filling one voxel, every list order; one order with a member missing
+						for ord := 0; ord < 6; ord++ {
+							add("VerifC04Mixed", cs("H", H, "V", V, "ord", ord, "drop", -1))
+						}
+						add("VerifC04Mixed", cs("H", H, "V", V, "ord", 3, "drop", 0))
+						add("VerifC04Mixed", cs("H", H, "V", V, "ord", 3, "drop", 2))
 					}
 				}
 			}
